@@ -85,6 +85,12 @@ def openGeneric (key nonce dst ctFull ad : Bytes) : Res :=
 
 /-! ## chacha20poly1305.go / xchacha20poly1305.go: the exported methods -/
 
+/-- exported constants and the `cipher.AEAD` accessors: KeySize, NonceSize, NonceSizeX, Overhead -/
+def keySize : Nat := 32
+def nonceSize : Nat := 12
+def nonceSizeX : Nat := 24
+def overhead : Nat := 16
+
 def maxPlaintext : Nat := 2 ^ 38 - 64
 def maxCiphertext : Nat := 2 ^ 38 - 48
 
